@@ -192,6 +192,10 @@ func main() {
 		fmt.Fprintln(os.Stderr, "usage: sygx <Cxx>|all")
 		os.Exit(2)
 	}
+	if os.Args[1] == "sigs" { // sygx sigs <package dir>… : declared functions, methods and struct fields with their signatures
+		dumpSigs(os.Args[2:])
+		return
+	}
 	ids := []string{os.Args[1]}
 	if os.Args[1] == "all" {
 		ids = nil
@@ -222,4 +226,55 @@ func main() {
 		js, _ := json.MarshalIndent(o.Facts, "", " ")
 		os.WriteFile(filepath.Join(verifRoot(), "work", id+".facts.json"), js, 0o644)
 	}
+}
+
+// dumpSigs prints, for every non-test Go file of the given directories (relative to the repo root), the declared
+// functions/methods (receiver type, name, signature) and struct fields (struct, name, type) as JSON. Used by
+// harness/hookfix.py to re-bind an accessor hook to an unexported declaration that was RENAMED (same receiver and
+// signature / same struct and field type), which is a harmless refactor and must not break the harness build.
+func dumpSigs(dirs []string) {
+	type ent struct{ Kind, Recv, Name, Sig string }
+	out := map[string][]ent{}
+	for _, d := range dirs {
+		files, _ := filepath.Glob(filepath.Join(repoRoot(), d, "*.go"))
+		sort.Strings(files)
+		for _, fn := range files {
+			if strings.HasSuffix(fn, "_test.go") || strings.HasPrefix(filepath.Base(fn), "zz_verif_") {
+				continue
+			}
+			f, err := parser.ParseFile(fset, fn, nil, 0)
+			if err != nil {
+				continue
+			}
+			for _, decl := range f.Decls {
+				switch x := decl.(type) {
+				case *ast.FuncDecl:
+					e := ent{Kind: "func", Name: x.Name.Name, Sig: Src(x.Type)}
+					if x.Recv != nil && len(x.Recv.List) == 1 {
+						e.Kind = "method"
+						e.Recv = strings.TrimPrefix(Src(x.Recv.List[0].Type), "*")
+					}
+					out[d] = append(out[d], e)
+				case *ast.GenDecl:
+					for _, sp := range x.Specs {
+						ts, ok := sp.(*ast.TypeSpec)
+						if !ok {
+							continue
+						}
+						st, ok := ts.Type.(*ast.StructType)
+						if !ok {
+							continue
+						}
+						for _, fl := range st.Fields.List {
+							for _, nm := range fl.Names {
+								out[d] = append(out[d], ent{Kind: "field", Recv: ts.Name.Name, Name: nm.Name, Sig: Src(fl.Type)})
+							}
+						}
+					}
+				}
+			}
+		}
+	}
+	js, _ := json.MarshalIndent(out, "", " ")
+	fmt.Println(string(js))
 }
